@@ -18,6 +18,9 @@ LEGACY = os.environ.get("KV_C18_LEGACY", "")
 READ = {"1": "buf.read.legacy", "2": "buf.read.unguarded"}.get(LEGACY, "buf.read")
 
 U64 = 2**64 - 1
+# The extracted model recurses over byte lists: bodies of 256 KiB overflow the OCaml stack (8 MiB) in the read / file
+# components, so no generated body, file or stream is longer than 128 KiB (half of that).
+MAX_BODY = 131072
 _pool_rng = random.Random(18)
 POOL = bytes(_pool_rng.randrange(256) for _ in range(1 << 17))
 
@@ -150,15 +153,15 @@ def gen_writeable(rng, tier):
         cases.append(w_case(ct, sizes, rng, "w-threshold", "nochk" if i % 5 == 0 else "dev",
                             driver=None if i % 3 else rng.choice([1, 2, 3])))
     # the sizes the callers really use: whole bodies through write_all / io::copy (8 KiB pieces), encoder output
-    # blocks of 16-128 KiB into with_capacity(len/3 + 64) (comprash.rs), a 200 KB body in one write
+    # blocks of 16-128 KiB into with_capacity(len/3 + 64) (comprash.rs), a 128 KiB body in one write
     big = [8191, 8192, 8193, 16384, 32768, 65536, 131072] if tier == "quick" else \
-          [6001, 8191, 8192, 8193, 12288, 16384, 32767, 32768, 32769, 65535, 65536, 65537, 100000, 131072, 200000]
+          [6001, 8191, 8192, 8193, 12288, 16384, 32767, 32768, 32769, 65535, 65536, 65537, 100000, 131072]
     for j, n in enumerate(big):
         for ct in (("new",), ("cap", n // 3 + 64), ("cap", n), ("cap", n - 1), ("from", data(j, 100), 28)):
             cases.append(w_case(ct, [n], rng, "w-large", PROFILES[j % 2], driver=j % 4))
             cases.append(w_case(ct, [n // 2, n - n // 2, 1], rng, "w-large", PROFILES[(j + 1) % 2], driver=(j + 1) % 4))
     for j in range(6 if tier == "quick" else 40):
-        total = rng.choice([20000, 70000, 150000])
+        total = rng.choice([20000, 70000, 120000])
         sizes = []
         while sum(sizes) < total:
             sizes.append(rng.choice([8192, 8192, 4096, 16384, 32768, rng.randrange(1, 20000)]))
@@ -233,10 +236,10 @@ def gen_replace(rng, tier):
         rl = rng.choice([0, 1, max(0, e - s), max(0, e - s) + 1, rng.randrange(0, 90)])
         sp = rng.choice([0, 0, 1, max(0, rl - max(0, e - s)), rng.randrange(0, 100)])
         cases.append(r_case(body, sp, s, e, REP[:rl], rng.randrange(NKINDS), rng, "r-random", rng.choice(PROFILES)))
-    # whole pages: bodies of 4 KiB - 200 KB, replacements up to 16 KiB, every storage kind
+    # whole pages: bodies of 4 KiB - 128 KiB, replacements up to 16 KiB, every storage kind
     nbig = 40 if tier == "quick" else 600
     for j in range(nbig):
-        n = rng.choice([4095, 4096, 4097, 8192, 20000, 65536] + ([131072, 200000] if j % 5 == 0 else []))
+        n = rng.choice([4095, 4096, 4097, 8192, 20000, 65536] + ([100000, 131072] if j % 5 == 0 else []))
         body = data(j * 7, n) if n <= 65536 else (POOL * 4)[j:j + n]
         s_ = rng.choice([0, 1, n // 2, n - 1, n, rng.randrange(0, n + 1)])
         e_ = rng.choice([s_, min(n, s_ + 1), min(n, s_ + 4096), n, rng.randrange(s_, n + 1)])
@@ -475,7 +478,7 @@ def gen_pending(rng, tier):
 def gen_file(rng, tier):
     sizes = [0, 1, 100, 4063, 4064, 4065, 4095, 4096, 4097, 8192, 65536]
     if tier != "quick":
-        sizes += [4096 - 33, 4096 - 31, 12287, 12288, 12289, 100000, 200000]
+        sizes += [4096 - 33, 4096 - 31, 12287, 12288, 12289, 100000, 131072]
     return [Case("buf.file", xl(xb(data(n, n) if n <= 65536 else (POOL * 3)[:n]), junk(rng)), "buf.file.spec", {"kind": "file"})
             for n in sizes]
 
@@ -512,7 +515,7 @@ def gen_files(rng, tier):
     cases = []
     sizes = [0, 1, 100, 4063, 4064, 4065, 4095, 4096, 4097, 5999, 6000, 6001, 8192, 65536]
     if tier != "quick":
-        sizes += [12288, 100000, 200000]
+        sizes += [12288, 100000, 131072]
     # every variant x cached/not on a fresh file of every size: miss, then hit, then past the cache
     for j, n in enumerate(sizes):
         c = data(n + j, n) if n <= 65536 else (POOL * 4)[j:j + n]
@@ -571,7 +574,7 @@ def gen_encode(rng, tier):
     """bodies compressed by the real gzip / brotli / zstd encoders into a WriteableBytes as comprash.rs does, decoded again"""
     cases = []
     texty = (b"<p>kvarn serves this paragraph again and again.</p>\n" * 4000)
-    sizes = [0, 1, 100, 5000, 70000, 200000] if tier == "quick" else [0, 1, 2, 63, 64, 65, 100, 191, 192, 193, 4096, 5000, 20000, 70000, 131072, 200000]
+    sizes = [0, 1, 100, 5000, 70000, 131072] if tier == "quick" else [0, 1, 2, 63, 64, 65, 100, 191, 192, 193, 4096, 5000, 20000, 70000, 100000, 131072]
     for j, n in enumerate(sizes):
         for codec, levels in ((0, (1, 6)), (1, (3, 9) if tier != "quick" else (3,)), (2, (1, 9))):
             for lv in levels:
@@ -794,14 +797,14 @@ RULE = ("direct calls of kvarn_utils::WriteableBytes (new / with_capacity / From
         "poisoning global allocator (fresh, grown and freed memory filled with 0xA5 / 0x3C): an answer that differs between the two "
         "runs contains bytes nobody wrote. Writes: every single-write size around every capacity 0..11 and 126..130, pairs landing on "
         "the boundary left by the first write, random sequences with sizes 0, 1, room-1, room, room+1, 4 KiB, around 128/192/256, "
-        "whole bodies of 8 KiB - 200 KB in one piece and in 8-32 KiB pieces into with_capacity(len/3+64). replace: every (start, end, "
+        "whole bodies of 8 KiB - 128 KiB in one piece and in 8-32 KiB pieces into with_capacity(len/3+64). replace: every (start, end, "
         "replacement length) on bodies of 0..8 bytes incl. reversed and out-of-bounds ranges (bounded-exhaustive; storage kind, spare "
         "capacity and arithmetic mode drawn independently; thorough: all combinations), usize boundary values, random on bodies up to "
-        "64 bytes, bodies of 4 KiB - 200 KB with replacements up to 16 KiB. Streams: initial length x spare capacity around the "
+        "64 bytes, bodies of 4 KiB - 128 KiB with replacements up to 16 KiB. Streams: initial length x spare capacity around the "
         "32-byte threshold x maxima; single-byte reads; chunks generated against a simulation of the capacity so that reads fill the "
         "spare capacity exactly / +-1 / leave 31,32,33 bytes; streams of 16-64 KiB; empty chunks; failing readers (every kind at every "
         "position); 1-6 Pendings at random positions with a caller that waits, that drops the future at the 1st..n-th Pending, or "
-        "whose patience outlasts the stream. Files: sizes 0..64 KiB (200 KB thorough) around 4096 and 6000 x the three functions x "
+        "whose patience outlasts the stream. Files: sizes 0..64 KiB (128 KiB thorough) around 4096 and 6000 x the three functions x "
         "miss / hit / no cache; files changed, shortened, removed or turned into a directory behind a cached entry; missing files and "
         "directories (negative entries); procfs files (length 0 in the metadata); random histories over three paths. "
         "distinct_nontrivial counts distinct (component, input, outcome class) triples")
